@@ -16,7 +16,132 @@ class C09(EngineProp):
     rule = 'as C07 with cancellation-heavy scripts: cancel injected at any position incl. "request and cancel in one read", "cancel racing completion", "response racing cancel"'
     assumptions = ['the peer is protocol-legal']
 
+    def cases(self, rng, tier):
+        from harness import sources
+        out = super().cases(rng, tier)
+        n = 300 if tier == 'quick' else 8000
+        for _ in range(n):
+            kind = rng.choice(sources.KINDS)
+            steps = []
+            for _ in range(rng.randint(0, 3)):
+                steps.append(['r', rng.choice([1, 2, 5])])
+                steps.append(rng.choice([['t', 1], ['t', 2], ['q'], ['t', 0]]))
+            steps.append(['x'])      # (a subscriber does not request after it cancelled: reactive-streams rule 3.6)
+            out.append({'mode': 'source', 'role': 'server', 'profile': 'source-cancel', 'kind': kind, 'count': rng.choice([0, 2, 6]),
+                        'flagged': rng.random() < 0.4 and kind in ('gen', 'agen'), 'failing': False, 'steps': steps})
+        for _ in range(n // 2):
+            out.append({'mode': 'wire-cancel', 'role': 'server', 'profile': 'source-cancel', 'kind': rng.choice(sources.KINDS), 'count': rng.choice([0, 3, 6]),
+                        'channel': rng.random() < 0.4, 'n0': rng.choice([1, 2, 5]), 'ticks': rng.choice([0, 0, 1, 2, 5])})
+        return out
+
+    def run_impl(self, case):
+        from harness import detloop, sources
+        if case.get('mode') == 'source':
+            return detloop.run(sources.drive, case)
+        if case.get('mode') == 'wire-cancel':
+            return detloop.run(self._wire_cancel, case)
+        return super().run_impl(case)
+
+    async def _wire_cancel(self, loop, case):
+        import asyncio
+        from harness import sources, simnet, engine
+        from rsocket.rsocket_server import RSocketServer
+        from rsocket.request_handler import BaseRequestHandler
+        from rsocket import frame as F
+        cancelled = []
+        src = sources.make_source(case['kind'], case['count'], False, False, on_cancel=lambda: cancelled.append(1))
+
+        class H(BaseRequestHandler):
+            async def request_stream(self, payload):
+                return src
+
+            async def request_channel(self, payload):
+                return src, None
+        t = simnet.ScriptedTransport(loop)
+        server = RSocketServer(t, handler_factory=H)
+        await loop.settle()
+        t.deliver(engine.build_frame({'ty': 'REQUEST_CHANNEL' if case['channel'] else 'REQUEST_STREAM', 'sid': 1, 'n': case['n0'], 'data': [9], 'complete': True}).serialize())
+        for _ in range(case['ticks']):
+            await asyncio.sleep(0)
+        t.deliver(engine.build_frame({'ty': 'CANCEL', 'sid': 1}).serialize())
+        # a bystander stream on the same connection
+        t.deliver(engine.build_frame({'ty': 'REQUEST_FNF', 'sid': 3, 'data': [1]}).serialize())
+        await loop.settle()
+        n_after = len(t.sent)
+        t.deliver(engine.build_frame({'ty': 'REQUEST_N', 'sid': 1, 'n': 5}).serialize())
+        await loop.settle()
+        errs = [e[1] for e in t.sent if isinstance(e[2], F.ErrorFrame)]
+        res = {'errors': errs, 'table': sorted(server._stream_control._streams.keys()), 'late_frames': len(t.sent) - n_after,
+               'on_cancel': len(cancelled), 'tasks_running': len([x for x in (getattr(src, '_payload_feeder', None), getattr(src, '_n_feeder', None)) if x is not None and not x.done()]),
+               'receiver_alive': not server._receiver_task.done()}
+        await server.close()
+        return res
+
+    def model_lines(self, case, obs):
+        if case.get('mode') in ('source', 'wire-cancel'):
+            return []
+        return super().model_lines(case, obs)
+
+    def compare(self, case, obs, answers):
+        if case.get('mode') in ('source', 'wire-cancel'):
+            return None
+        return super().compare(case, obs, answers)
+
+    def nontrivial(self, case, obs):
+        if case.get('mode') in ('source', 'wire-cancel'):
+            import json
+            return json.dumps(case, sort_keys=True)
+        return super().nontrivial(case, obs)
+
+    def stats(self, case, obs):
+        if case.get('mode') in ('source', 'wire-cancel'):
+            yield 'mode=' + case['mode']
+            yield 'kind=' + case['kind']
+            return
+        yield from super().stats(case, obs)
+
+    def shrink_candidates(self, case):
+        if case.get('mode') == 'source':
+            st = case['steps']
+            for i in range(len(st)):
+                if st[i][0] != 'x':
+                    yield dict(case, steps=st[:i] + st[i + 1:])
+            return
+        if case.get('mode') == 'wire-cancel':
+            if case['ticks']:
+                yield dict(case, ticks=case['ticks'] - 1)
+            return
+        yield from super().shrink_candidates(case)
+
+    def _source_oracle(self, case, obs):
+        fails = []
+        k = case['kind']
+        if case['mode'] == 'source':
+            if obs['errors']:
+                fails.append({'signature': 'source-cancel-raises:' + k, 'what': 'cancel() on the %s source raised: %s (steps %s)' % (k, obs['errors'], case['steps'])})
+            late = [p for p in obs['points'] if p[0] == 'cancelled' and p[1] > 0]
+            if late:
+                fails.append({'signature': 'source-produces-after-cancel:' + k, 'what': '%d signals delivered after cancel()' % late[0][1]})
+            if obs['tasks_running']:
+                fails.append({'signature': 'source-task-survives-cancel:' + k, 'what': '%d feeder tasks still running after cancel()' % obs['tasks_running']})
+            if k in ('gen', 'agen') and obs['on_cancel'] != 1 and not obs['errors']:
+                fails.append({'signature': 'on-cancel-callback-count:' + k, 'what': 'on_cancel invoked %d times' % obs['on_cancel']})
+        else:
+            if obs['errors']:
+                fails.append({'signature': 'cancelled-stream-answers-error:' + k, 'what': 'request and CANCEL %d iterations apart: the responder emitted %s' % (case['ticks'], obs['errors'])})
+            if 1 in obs['table']:
+                fails.append({'signature': 'cancelled-stream-still-registered:' + k, 'what': 'stream 1 still registered after CANCEL'})
+            if obs['late_frames']:
+                fails.append({'signature': 'frames-after-cancel:' + k, 'what': '%d frames emitted after the CANCEL was processed' % obs['late_frames']})
+            if obs['tasks_running']:
+                fails.append({'signature': 'source-task-survives-cancel:' + k, 'what': 'feeder tasks still running after CANCEL'})
+            if not obs['receiver_alive']:
+                fails.append({'signature': 'receiver-died', 'what': 'the receiver task ended'})
+        return fails
+
     def oracle(self, case, obs):
+        if case.get('mode') in ('source', 'wire-cancel'):
+            return self._source_oracle(case, obs)
         fails = []
         steps = obs['steps']
         h, stim = histories(obs)
